@@ -205,10 +205,10 @@ example : ¬ NptsOK (cacheTable.dropNpts "reset_values") := by decide
 
 /-- **C05.c** `Effects_clean`: no public function in the generated summary has an in-place construct whose
 target may alias a parameter (syntactic guarantee, sound for the constructs the scanner knows). -/
-theorem effects_clean_golden : EffectsClean EqsigVerif.GenGolden.effects := by decide
+theorem effects_clean_golden : EffectsClean EqsigVerif.GenGolden.effects := by decide +kernel
 theorem effects_clean_gen : EffectsClean EqsigVerif.Gen.effects := by decide +kernel
 
 /-- not vacuous: a function that sorts its argument in place is rejected -/
-example : ¬ EffectsClean (⟨"bad_fn", true, 12⟩ :: EqsigVerif.GenGolden.effects) := by decide
+example : ¬ EffectsClean (⟨"bad_fn", true, 12⟩ :: EqsigVerif.GenGolden.effects) := by decide +kernel
 
 end EqsigVerif.Props.C05
